@@ -1280,19 +1280,25 @@ def check(src, rep, tier):
     rep.need('C12.R3', 20)
     rep.need('C12.R4', 6)
     rep.need('C12.R5', 3)
-    M = Model(src, rep)
     rep.guard('C12.R1', r1_optional_fields, src)
     n_v, n_e = len(rep.violations), len(rep.errors)
     rep.guard('C12.R2', r2b_same_table, src)
     scen_hold = len(rep.violations) == n_v and len(rep.errors) == n_e
     n_r2 = sum(1 for i_ in rep.instances if i_.get('rule') == 'C12.R2')
-    # (the template-level reading: exact for every token the writer can lay out, when the writer is in its vocabulary)
-    common.SoftErrors(rep, lambda: scen_hold, 'the interpreted writer and reader scenarios (C12.R2), which hold').guard('C12.R2', r2_roundtrip, src, M)
+    # (the template-level reading: exact for every token the writer can lay out, when the writer AND the paragraph reader are in its
+    # vocabulary; the model of the paragraph reader is C02's business)
+    softm = common.SoftErrors(rep, lambda: scen_hold, 'the interpreted writer and reader scenarios (C12.R2), which hold')
+    M = softm.guard('C12.R2', lambda r_: Model(src, r_))
+    if M is not None:
+        softm.guard('C12.R2', r2_roundtrip, src, M)
     if rep.min_instances.get('C12.R2') == 0:
         rep.min_instances['C12.R2'] = n_r2
     rep.guard('C12.R3', r3_tables, src)
     rep.guard('C12.R4', r4_size_column, src, common.SoftAll(rep, lambda: scen_hold, 'the interpreted writer with a registered width (C12.R2), whose size column is right-aligned in every record'))
     n_r5 = sum(1 for i_ in rep.instances if i_.get('rule') == 'C12.R5')
-    common.SoftErrors(rep, lambda: scen_hold, 'the interpreted writer and reader scenarios (C12.R2), which hold').guard('C12.R5', r5_container_kind, src, M)
+    if M is not None:
+        common.SoftErrors(rep, lambda: scen_hold, 'the interpreted writer and reader scenarios (C12.R2), which hold').guard('C12.R5', r5_container_kind, src, M)
+    elif scen_hold:
+        rep.min_instances['C12.R5'] = 0
     if rep.min_instances.get('C12.R5') == 0:
         rep.min_instances['C12.R5'] = n_r5
